@@ -57,6 +57,34 @@ def launches(f):
 
 
 # ---------------------------------------------------------------------------
+def orphan_rule(prog, rep):
+    """A buffer taken off the writer's queue is either launched (recorded in curr with a live write_cookie) or freed
+    before poke returns failure: netbuf_write_free() releases curr only while a write is in flight, so a buffer that
+    is unlinked but not launched is leaked when the launch fails for lack of memory."""
+    u = prog.unit(WU)
+    p = u.func("poke")
+    if p is None:
+        raise cdb.AnalysisBroken("anchor missing: poke")
+    from .. import own
+
+    def transfer(st, e):
+        if any(m in ("STAILQ_REMOVE", "STAILQ_REMOVE_HEAD") for m in e.macro) and e.is_assign:
+            return True
+        if e.cls == "CallExpr" and e.callee == "free" and norm(e.arg(0))[0] == "v":
+            return False
+        return st
+    s = Solver(p, False, transfer, None, lambda a, b: a or b).run()
+    bad = []
+
+    def visit(e, st):
+        if own.is_failure_return(e) and st:
+            bad.append(e)
+    s.visit(visit)
+    rep.check(not bad, "F2-orphan", "poke: no buffer is off the queue when the launch fails", p.loc,
+              "on a path to the failure return a buffer has been unlinked from the queue but neither launched nor freed; "
+              "netbuf_write_free() frees curr only while write_cookie is set, so that buffer is leaked", function="poke", construct="orphan")
+
+
 def writer(prog, rep):
     u = prog.unit(WU)
     funcs = [f for f in u.funcs if f.file == WU]
@@ -436,6 +464,7 @@ def run(tier):
         prog = ir.Program([WU, RU], cfg)
         rep.add_stats(prog)
         writer(prog, rep)
+        orphan_rule(prog, rep)
         reader(prog, rep)
     n = len(configs)
     rep.require_min("F1-launch", 2 * n)
